@@ -1,0 +1,85 @@
+//go:build verif
+
+package main
+
+import (
+	"strconv"
+	"strings"
+)
+
+func verifToks(a []string) []string {
+	out := make([]string, len(a))
+	for i, s := range a {
+		out[i] = string(verifUnhex(s))
+	}
+	return out
+}
+
+func verifList(l []string) string {
+	var sb strings.Builder
+	sb.WriteString(strconv.Itoa(len(l)))
+	for _, s := range l {
+		sb.WriteByte(' ')
+		sb.WriteString(verifHex([]byte(s)))
+	}
+	return sb.String()
+}
+
+var _ = func() bool {
+	verifOps["split"] = func(a []string) string {
+		flags, args := splitFlagsFromArgs(verifToks(a))
+		return verifList(flags) + " | " + verifList(args)
+	}
+	verifOps["filter"] = func(a []string) string {
+		filtered, unknown := filterForwardBuildFlags(verifToks(a))
+		return verifList(filtered) + " | " + verifHex([]byte(unknown))
+	}
+	verifOps["reject"] = func(a []string) string {
+		if err := rejectUnknownBuildFlags(verifToks(a)); err != nil {
+			return "1"
+		}
+		return "0"
+	}
+	verifOps["fval"] = func(a []string) string {
+		return verifHex([]byte(flagValue(verifToks(a[1:]), string(verifUnhex(a[0])))))
+	}
+	verifOps["fvals"] = func(a []string) string {
+		var vals []string
+		for v := range flagValues(verifToks(a[1:]), string(verifUnhex(a[0]))) {
+			vals = append(vals, v)
+		}
+		return verifList(vals)
+	}
+	verifOps["fset"] = func(a []string) string {
+		return verifList(flagSetValue(verifToks(a[2:]), string(verifUnhex(a[0])), string(verifUnhex(a[1]))))
+	}
+	verifOps["splitfiles"] = func(a []string) string {
+		flags, paths := splitFlagsFromFiles(verifToks(a[1:]), string(verifUnhex(a[0])))
+		return verifList(flags) + " | " + verifList(paths)
+	}
+	verifOps["trimpath"] = func(a []string) string {
+		sharedTempDir = string(verifUnhex(a[0]))
+		return verifList(alterTrimpath(verifToks(a[1:])))
+	}
+	verifOps["rxgarble"] = func(a []string) string {
+		if rxGarbleFlag.MatchString(string(verifUnhex(a[0]))) {
+			return "1"
+		}
+		return "0"
+	}
+	verifOps["qsplit"] = func(a []string) string {
+		l, err := cmdgoQuotedSplit(string(verifUnhex(a[0])))
+		if err != nil {
+			return "err"
+		}
+		return verifList(l)
+	}
+	verifOps["qjoin"] = func(a []string) string {
+		s, err := cmdgoQuotedJoin(verifToks(a))
+		if err != nil {
+			return "err"
+		}
+		return verifHex([]byte(s))
+	}
+	return true
+}()
